@@ -42,6 +42,7 @@ def plan(tier, seed):
     meta = dict(
         rule=RULE,
         require=['image_results', 'preimage_results', 'level_arguments',
+                 'calls_with_reordering_due',
                  'autoref_results', 'outside_class_inputs',
                  'nonadjacent_image_results'],
         assumptions=['documented usage: the target of preimage is a set '
@@ -242,8 +243,21 @@ def multi(ctx, spec):
             st_r = build(bdd, st, sp)
             bdd.incref(st_r)
             how = rng.randrange(3)
-            got = call(ctx, A, ab, _a, _b, fn, tr_r, st_r, rename, qv, fa,
-                       how)
+            dynamic = rng.random() < 0.3
+            if dynamic:
+                # dynamic reordering enabled and due at the next node
+                # creation: the result must be the same (operands held)
+                bdd._last_len = 1
+                ctx.counters['calls_with_reordering_due'] += 1
+            try:
+                got = call(ctx, A, ab, _a, _b, fn, tr_r, st_r, rename, qv,
+                           fa, how)
+            finally:
+                if dynamic:
+                    still = bdd.configure(reordering=False)['reordering']
+            if dynamic and not still:
+                ctx.violation(fn, 'reordering-switched-off',
+                              dict(order=order, how=how))
             want = model(sp, fn, trans, st, rename, qv, fa)
             den = Denoter(bdd, sp)
             ctx.case(0 < trans < sp.full and 0 < st < sp.full, fn,
